@@ -39,6 +39,9 @@ def main():
     args = ap.parse_args()
     _reexec_with_env()
 
+    import faulthandler
+    import signal as _signal
+    faulthandler.register(_signal.SIGUSR1, all_threads=True)
     os.chdir(HERE)
     sys.path.insert(0, HERE)
     repo = os.environ.get("VERIF_REPO", "/repo")
